@@ -161,7 +161,22 @@ theorem sort_contract_satisfiable : SortContract mergeSorter := mergeSorter_cont
 example : sortToIndices insSorter (fun x y : Int => compare x y) ⟨true, false⟩
     [some 5, none, some 1, some 5, none, some (-2)] (some 4) = [0, 3, 2, 5] := by decide
 
-/-! ## (5) partition (rank: see `props/C10.json`, tested against `rankSpec` only) -/
+/-! ## (5) rank and partition -/
+
+/-- **`rank`** (`rank_impl`: sort the valid entries, reverse when descending, walk them from the
+back with `valid_rank`/`count`, nulls get `null_rank`): for every column and option
+combination the result is, for each row, the number of rows that are `≤` it under the slot
+comparator — i.e. ties share the highest rank, nulls rank first/last as `nulls_first` says.
+Under the std sorting contract. -/
+theorem rank_is_comparator_rank {α : Type} (sortBy : PartialSorter) (hs : SortContract sortBy)
+    (cmp : α → α → Ordering) (hc : TotalPreCmp cmp) (o : SortOptions) (col : List (Option α)) :
+    rankCol (fun c xs => sortBy c xs.length xs) cmp o col = rankSpec (rowCmp cmp o col) col.length :=
+  rankCol_eq_spec sortBy hs cmp hc o col
+
+/-- the doc example of `rank`: `["foo", null, "foo", null, "bar"]` → `[5, 2, 5, 2, 3]` -/
+example : rankCol (fun c xs => insSort c xs) bytesCmp ⟨false, true⟩
+    [some [102, 111, 111], none, some [102, 111, 111], none, some [98, 97, 114]] = [5, 2, 5, 2, 3] := by
+  decide
 
 /-- **`partition` boundaries** (`find_boundaries` per column, OR-ed): bit `i` is set exactly
 when rows `i` and `i+1` differ under the tuple comparator of the columns. -/
